@@ -65,7 +65,8 @@ def _scan_to_matching_brace(text, start):
 
 def extract_fn(src_text, anchor):
     lines = src_text.split("\n")
-    hits = [k for k, l in enumerate(lines) if l.strip() == anchor]
+    hits = [k for k, l in enumerate(lines) if l.strip() == anchor
+            or re.match(r"(pub(\([a-z]+\))? )?" + re.escape(anchor), l.strip())]
     if len(hits) != 1:
         raise LostAnchor("anchor %r matches %d lines" % (anchor, len(hits)))
     off = sum(len(l) + 1 for l in lines[: hits[0]])
